@@ -771,7 +771,8 @@ fn gen_rec(rng: &mut Rng, alpha: &str, maxw: u64, canon: bool) -> Rec {
             syms.truncate(keep);
         }
         let w = 1 + rng.below(maxw);
-        let start = rng.below(2);
+        // row labels: usually 00../01.., sometimes crossing 99 -> 100 (three digits)
+        let start = if rng.chance(1, 8) { 90 + rng.below(20) } else { rng.below(2) };
         let style = rng.below(4);
         let intonly = rng.chance(1, 2);
         // canonical layout parameters: column separator, PO/P0, text after the counts
@@ -780,7 +781,7 @@ fn gen_rec(rng: &mut Rng, alpha: &str, maxw: u64, canon: bool) -> Rec {
         let cons = canon && rng.chance(1, 2);
         for i in 0..w {
             let n = i + start;
-            let label = if canon || style < 2 {
+            let label = if style < 2 {
                 format!("{:02}", n)
             } else if style == 2 {
                 format!("{}", n)
